@@ -66,12 +66,13 @@ mod verif_cert_w {
     fn fix() -> Fix { FIX.with(|f| f.clone()) }
 
     #[derive(Clone, Copy, PartialEq, Debug)]
-    enum Kind { Ca, Ee, Router }
+    enum Kind { Ca, Ee, DetachedEe, Router }
     /// the public validation entry point for the kind; Some(validated certificate) for CA / EE
     fn validate(kind: Kind, cert: &Cert, issuer: &ResourceCert, strict: bool, now: Time) -> Result<Option<ResourceCert>, ()> {
         match kind {
             Kind::Ca => cert.clone().validate_ca_at(issuer, strict, now).map(Some).map_err(|_| ()),
             Kind::Ee => cert.clone().validate_ee_at(issuer, strict, now).map(Some).map_err(|_| ()),
+            Kind::DetachedEe => cert.clone().validate_detached_ee_at(issuer, strict, now).map(Some).map_err(|_| ()),
             Kind::Router => cert.validate_router_at(issuer, strict, now).map(|_| None).map_err(|_| ()),
         }
     }
@@ -85,10 +86,12 @@ mod verif_cert_w {
     /// subject, its kind, its issuer, a certificate that is NOT its issuer, a time inside its window,
     /// and whether acceptance of the untouched subject is a fixture fact (false: composed value)
     fn subject(f: &Fix, sel: u8) -> (Kind, Cert, ResourceCert, ResourceCert, Time, bool) {
-        match sel % 4 {
+        match sel % 6 {
             0 => (Kind::Ca, f.ca1.clone(), f.ta_rc.clone(), f.ca1_rc.clone(), t0(), true),
             1 => (Kind::Ee, f.ee_ta.clone(), f.ta_rc.clone(), f.ca1_rc.clone(), t0(), true),
             2 => (Kind::Ee, f.ee_ca1.clone(), f.ca1_rc.clone(), f.ta_rc.clone(), t0(), true),
+            3 => (Kind::DetachedEe, f.ee_ta.clone(), f.ta_rc.clone(), f.ca1_rc.clone(), t0(), true),
+            4 => (Kind::DetachedEe, f.ee_ca1.clone(), f.ca1_rc.clone(), f.ta_rc.clone(), t0(), true),
             _ => (Kind::Router, composed_router(f), f.ta_rc.clone(), f.ca1_rc.clone(), t0_router(), false),
         }
     }
@@ -134,7 +137,7 @@ mod verif_cert_w {
 
     //------------ issued certificates: CA, EE, router ---------------------------------------------------
 
-    //@harness cert_w_issued W fn=Cert::{validate_ca_at,validate_ee_at,validate_router_at,inspect_ca,inspect_ee,inspect_router,inspect_basics,verify_ca_at,verify_ee_at,verify_router_at,verify_validity,verify_issuer_claim,verify_signature},Validity::{new,verify_at},Time::{verify_not_before,verify_not_after},KeyIdentifier::eq,SignedData::verify_signature n=2500 timeout=900
+    //@harness cert_w_issued W fn=Cert::{validate_ca_at,validate_ee_at,validate_detached_ee_at,validate_router_at,inspect_ca,inspect_ee,inspect_router,inspect_basics,verify_ca_at,verify_ee_at,verify_router_at,verify_validity,verify_issuer_claim,verify_signature},Validity::{new,verify_at},Time::{verify_not_before,verify_not_after},KeyIdentifier::eq,SignedData::verify_signature n=15000 timeout=900
     verif_search!{ cert_w_issued; |sel: u8, strict: bool, mode: u8, var: u8, k: u8, idx: u16, bit: u8, extra: [u8; 4], kid: [u8; 20],
                                    scale: u8, secs: i32, ms: i16, scale2: u8, secs2: i32, ms2: i16| {
         let f = fix();
@@ -309,7 +312,7 @@ mod verif_cert_w {
     fn as_res(f: &Fam) -> AsResources { match f.choice { 0 => AsResources::missing(), 1 => AsResources::inherit(), _ => AsResources::blocks(as_blocks(&f.claim)) } }
     const TOP32: u128 = u32::MAX as u128;
 
-    //@harness cert_w_resources W fn=Cert::{validate_ca_at,validate_ee_at,validate_router_at,verify_resources,verify_as_resources},IpBlocks::{verify_issued,contains,intersection},AsBlocks::verify_issued,Chain::{trim,is_encompassed} n=5000 timeout=900
+    //@harness cert_w_resources W fn=Cert::{validate_ca_at,validate_ee_at,validate_router_at,verify_resources,verify_as_resources},IpBlocks::{verify_issued,contains,intersection},AsBlocks::verify_issued,Chain::{trim,is_encompassed} n=40000 timeout=900
     verif_search!{ cert_w_resources; |sel: u8, strict: bool, pol_s: bool, pol_i: bool,
                                       c4: u8, i4: u8, ri4: [u8; 8], s4: u8, rs4: [u8; 8], rel4: u8, m4: u8,
                                       c6: u8, i6: u8, ri6: [u8; 8], s6: u8, rs6: [u8; 8], rel6: u8, m6: u8,
@@ -349,7 +352,7 @@ mod verif_cert_w {
 
     //------------ trust anchor --------------------------------------------------------------------------
 
-    //@harness cert_w_ta W fn=Cert::{validate_ta_at,inspect_ta,verify_ta_at,verify_ta_ref_at,verify_validity},IpBlocks::from_resources,AsBlocks::from_resources,Validity::verify_at,SignedData::verify_signature n=2500 timeout=900
+    //@harness cert_w_ta W fn=Cert::{validate_ta_at,inspect_ta,verify_ta_at,verify_ta_ref_at,verify_validity},IpBlocks::from_resources,AsBlocks::from_resources,Validity::verify_at,SignedData::verify_signature n=10000 timeout=900
     verif_search!{ cert_w_ta; |strict: bool, mode: u8, var: u8, k: u8, idx: u16, bit: u8, extra: [u8; 4], kid: [u8; 20],
                                scale: u8, secs: i32, ms: i16, scale2: u8, secs2: i32, ms2: i16,
                                s4: u8, rs4: [u8; 8], m4: u8, s6: u8, rs6: [u8; 8], m6: u8, sa: u8, rsa: [u8; 8], ma: u8| {
@@ -429,7 +432,7 @@ mod verif_cert_w {
 
     //------------ PublicKey::verify ---------------------------------------------------------------------
 
-    //@harness cert_w_keys W fn=PublicKey::verify,PublicKeyFormat::verify,SignedData::verify_signature,Cert::{verify_signature,validate_ca_at,verify_ta_ref_at} n=2500 timeout=900
+    //@harness cert_w_keys W fn=PublicKey::verify,PublicKeyFormat::verify,SignedData::verify_signature,Cert::{verify_signature,validate_ca_at,verify_ta_ref_at} n=4000 timeout=900
     verif_search!{ cert_w_keys; |strict: bool, mode: u8, var: u8, k: u8, idx: u16, bit: u8, extra: [u8; 4]| {
         let f = fix();
         // an ECDSA P-256 key with a message and its ECDSA signature: the self-signed router certification request
